@@ -287,10 +287,10 @@ Definition is_watching (e : sdentry) (w : world) : bool :=
   end.
 
 Definition handle_offer (e : sdentry) (a : addr) (w : world) : world :=
-  if negb (is_watching e w) then w else
   match from_offer_entry e with
   | Err _ => w
-  | Ok s => if e_ttl e =? 0 then store_stop SFound a (KService s) w
+  | Ok s => if e_ttl e =? 0 then store_stop SFound a (KService s) w      (* a StopOffer is honoured even while nobody watches *)
+            else if negb (is_watching e w) then w
             else fst (store_refresh SFound (e_ttl e) a (KService s) w)
   end.
 
